@@ -1034,8 +1034,10 @@ def model_guard_scopes(body):
     of `if let` / `while let` / `match` lives until the end of that whole statement.  The stand-ins
     return plain references, whose borrow ends at the last use; to give the borrow checker the scope of
     the real guard, the scrutinee is bound to a local first and that local is used once more after the
-    statement:   if let P = <S> { B }   ==>   { let mut g_ = <S>; if let P = g_ { B } hold_(&g_); }
-    (only where the `if let` is a whole statement with no `else` value being used)."""
+    statement:   if let P = X.rc_deref_mut()<rest> { B }   ==>
+                 { let mut g_ = GuardScope_(X.rc_deref_mut()); if let P = g_.0<rest> { B } }
+    where GuardScope_ has a destructor, so the borrow is live to the end of the block on every exit path
+    (only where the `if let` is a whole statement with no `else`)."""
     out = body
     pos = 0
     for _ in range(20):
@@ -1071,12 +1073,12 @@ def model_guard_scopes(body):
         if re.match(r"\s*else\b", masked[cb + 1:]):
             continue
         pat = out[m.end():eq]
-        gm = re.match(r"^\s*([\w\.]+?\.\s*rc_deref(?:_mut)?\s*\(\s*\))(.*)$", scrut, re.S)
+        gm = re.match(r"^\s*([\w\.\s]+?\.\s*rc_deref(?:_mut)?\s*\(\s*\))(.*)$", scrut, re.S)
         if not gm:
             continue
-        new = "{ let mut guard_tmp_ = %s; if let %s= guard_tmp_%s %s hold_(&guard_tmp_); }" % (gm.group(1), pat, gm.group(2).rstrip(), out[k:cb + 1])
+        new = "{ let mut guard_tmp_ = GuardScope_(%s); if let %s= guard_tmp_.0%s %s }" % (gm.group(1), pat, gm.group(2).rstrip(), out[k:cb + 1])
         out = out[:m.start()] + new + out[cb + 1:]
-        pos = m.start() + len("{ let mut guard_tmp_ = ")
+        pos = m.start() + len("{ let mut guard_tmp_ = GuardScope_(")
     return out
 
 
@@ -1096,6 +1098,18 @@ def process_fn(fn, spec, handle, stats, canary):
     # declared rewrites
     for (fname, old, new) in spec.rewrites:
         if fname != name:
+            continue
+        if old.startswith("optre:"):
+            # optional regex form: the rewrite places a re-entry assertion at an explicit guard release; if
+            # the release is gone the other obligations of the function (and the free probes) still decide,
+            # and a unit that otherwise passes is reported undecided (the assertion could not be placed)
+            rx = re.compile(old[6:].strip())
+            ms = list(rx.finditer(body))
+            if len(ms) != 1:
+                stats.setdefault("yield_points_missing", []).append("%s: %s" % (name, old[6:].strip()))
+                continue
+            body = body[: ms[0].start()] + ms[0].expand(new) + body[ms[0].end():]
+            stats["declared_rewrites"] += 1
             continue
         if old.startswith("re:"):
             # regex form (groups allowed in the replacement): tolerant to renamed locals
